@@ -15,6 +15,7 @@ EXPLANATION = (
     "idempotent because barrier = len(stages).")
 ASSUMPTIONS = ["rayon's install / for_each return only after all spawned work finished"]
 TRUSTED = ["rustc nightly MIR construction", "shred-facts driver", "shredlint analyses"]
+TECHNIQUE = 'static: single-writer and stored-value check of `barrier`, must-call forwarding, range-term check of the candidate scan, target construction inventory, FANOUT coverage of stage loops, thread-local ordering by dominance'
 RULE_TEXT = "one obligation per writer of `barrier`, forwarding site, range endpoint, target construction site and stage-loop fan-out"
 
 EXEC_IDS = ("SendDispatcher::dispatch", "SendDispatcher::dispatch_par", "SendDispatcher::dispatch_seq", "AsyncDispatcher::dispatch",
